@@ -103,7 +103,7 @@ def resolve_stream(ctx, books, depths, repeat, tagkey):
 
 def check_C01(ctx):
     r = ctx.rng
-    n = ctx.scale(1500, 60000)
+    n = ctx.scale(4000, 80000)
     books, depths = [], []
     for k in range(n):
         items, meta = gen.book(r, depth=r.randint(1, 5), fancy=0.15, envelope=r.random() < 0.4)
@@ -124,7 +124,7 @@ def check_C01(ctx):
     resolve_stream(ctx, books, depths, ctx.scale(8, 16), "C01")
     # through the command line: resolved export, element-total, register ingredient lines
     cases = []
-    for k in range(ctx.scale(150, 3000)):
+    for k in range(ctx.scale(400, 4000)):
         w = gen.world(r, fancy=0.15, envelope=r.random() < 0.5)
         f = files_of(r, w)
         els = gen.element_names(w) or ["x"]
@@ -150,7 +150,7 @@ def check_C11(ctx):
                 for extra in (False, True):
                     b = gen.render_items(r, gen.cycle_book(r, lead, cyc, extra)); books.append((b, {})); depths.append(N); ctx.nontriv(b + bytes([N]))
     ctx.sample(dict(book=books[40][0], depth=depths[40])); ctx.sample(dict(book=books[-1][0], depth=depths[-1]))
-    for k in range(ctx.scale(400, 20000)):
+    for k in range(ctx.scale(1500, 30000)):
         items, meta = gen.book(r, depth=r.randint(1, 6), fancy=0.05, envelope=True, cycles=r.choice([0, 0, 0.1, 0.3]))
         b = gen.render_items(r, items); books.append((b, meta)); depths.append(r.randint(1, 12))
         if meta["recipes"]: ctx.nontriv(b + bytes([depths[-1]]))
@@ -207,7 +207,7 @@ def check_C04(ctx):
     parse_stream_diff(ctx, datas, "C04:parse-differs-short-input")
     ctx.notes["exhaustive_short_inputs"] = dict(alphabet=[t.decode() for t in TOKENS], max_len=L, count=len(datas))
     # rendered abstract files (every layout variant): the theorem's statement evaluated by the model, and the implementation against it
-    fs = syntax_files(ctx, ctx.scale(4000, 150000))
+    fs = syntax_files(ctx, ctx.scale(10000, 150000))
     wf = [f for f in fs if f["wf"]]
     for f in wf:
         if not f["match"]:
@@ -225,7 +225,7 @@ def check_C04(ctx):
     for f in wf[:2]: ctx.sample(dict(file=f["data"]))
     ctx.tally("files", "well-formed", len(wf)); ctx.tally("files", "generator produced ill-formed (skipped)", len(fs) - len(wf))
     # values: long decimals, ties, subnormals (correct rounding is what strconv does; the model's parse_float is compared bit for bit)
-    nums = [gen.number(r, special=0.3) for _ in range(ctx.scale(3000, 100000))]
+    nums = [gen.number(r, special=0.3) for _ in range(ctx.scale(8000, 100000))]
     nums += ["%d.%s" % (r.randint(0, 99), "".join(r.choice("0123456789") for _ in range(r.randint(14, 19)))) for _ in range(ctx.scale(3000, 100000))]
     datas = [("h\n  x %s\n" % x).encode() for x in nums]
     parse_stream_diff(ctx, datas, "C04:value-differs")
@@ -302,7 +302,7 @@ def check_C10(ctx):
     r = ctx.rng
     # every offset of small files, three read chunkings
     datas, faults = [], []
-    nfiles = ctx.scale(40, 600)
+    nfiles = ctx.scale(120, 800)
     for k in range(nfiles):
         it, fn = gen.syntax_items(r, n_records=r.randint(1, 3), bad=0.1 if r.random() < 0.3 else 0, fancy=0.2)
         d = gen.syntax_render(it, fn)[:220]
